@@ -44,6 +44,9 @@ type nodeScenario struct {
 	Router   string     `json:"router"`
 	TopicVal bool       `json:"topicval"`
 	Inline   bool       `json:"inline"` // install the default validator with WithValidatorInline(true)
+	// TopicInline: the accepting topic validator is inline as well. With Inline this puts the seqno
+	// validator FIRST in a chain of two inline validators: its Ignore must survive the later Accept.
+	TopicInline bool `json:"topicinline"`
 	Vals     []string   `json:"vals"`
 }
 
@@ -206,9 +209,13 @@ func nodeOne(t *testing.T, out *vh.Out, idx int, sc nodeScenario) {
 		}
 		if sc.TopicVal {
 			// a topic validator next to the default validator: the default one must still decide
+			var tvopts []pubsub.ValidatorOpt
+			if sc.TopicInline {
+				tvopts = append(tvopts, pubsub.WithValidatorInline(true))
+			}
 			if err := ps.RegisterTopicValidator(topic, func(context.Context, peer.ID, *pubsub.Message) pubsub.ValidationResult {
 				return pubsub.ValidationAccept
-			}); err != nil {
+			}, tvopts...); err != nil {
 				t.Fatal(err)
 			}
 		}
@@ -307,7 +314,7 @@ func nodeOne(t *testing.T, out *vh.Out, idx int, sc nodeScenario) {
 			st.puts = nil
 			return res
 		}
-		out.Emit(vh.M{"e": "reset", "sc": idx, "router": sc.Router, "topicval": sc.TopicVal, "inline": sc.Inline})
+		out.Emit(vh.M{"e": "reset", "sc": idx, "router": sc.Router, "topicval": sc.TopicVal, "inline": sc.Inline, "topicinline": sc.TopicInline})
 		hnet.Settle(100 * time.Millisecond)
 		obs.Drain()
 		slot := func() { // next k*1000+500 ms instant, away from heartbeats and sweeps
